@@ -129,7 +129,8 @@ Definition phase_candidates (A B : mat poly) : list aff :=
   | None => [[]]
   | Some (i, j, q) =>
       let p := mget Pops A i j in
-      flat_map (fun t => map (fun u => aadd (fst t) (aneg (fst u))) q) p
+      flat_map (fun t => flat_map (fun u =>
+          let d := aadd (fst t) (aneg (fst u)) in [d; aadd d (api 1)]) q) p
   end.
 
 Definition phase_ok (A B : mat poly) (m : aff) : bool :=
